@@ -96,6 +96,23 @@ theorem resourceName_first : inRanges rnR1 '-' = false := by decide
 /-- a resource header `-R…` is not a transform header -/
 theorem segId_not_R : inRanges siR1 'R' = false := by decide
 
+/-! ### canonical text read as a resource path (the `resource_transform_query` alternative of `parse`) -/
+
+/-- the characters of identifiers and file names are resource-name characters -/
+theorem names_in_resourceName :
+    (subRanges idR1 rnR1 && subRanges idR1 rnR2 && subRanges idR2 rnR2 && subRanges fnR1 rnR1 &&
+      subRanges fnR1 rnR2 && subRanges fnR3 rnR2 && inRanges rnR1 '.' && inRanges rnR2 '.' &&
+      inRanges rnR2 '-') = true := by decide
+/-- `~`, `%`, `+` and `/` are not -/
+theorem resourceName_excl :
+    ['~', '%', '+', '/'].all (fun c => !inRanges rnR2 c && !inRanges rnR1 c) = true := by decide
+/-- every bare character of an encoded token is a resource-name character -/
+theorem resourceName_covers :
+    ∀ n : Fin 128, (tokSafe (Char.ofNat n.val) && Char.ofNat n.val != '%' && Char.ofNat n.val != '~') = true →
+      inRanges rnR2 (Char.ofNat n.val) = true := by decide
+/-- a tab is white space (so canonical text, which has no white space, is not changed by `expandtabs`) -/
+theorem tab_white : Gen.whiteChars.contains '\t' = true := by decide
+
 /-! ### parameter pieces -/
 
 /-- every bare character of an encoded token (`tokSafe`, not `%`, not `~`) is parameter text -/
